@@ -20,10 +20,17 @@ RULE = ("(a) random: generated point clouds (<=300 points quick / <=2000 thoroug
         "executable Lean specification RoundTripOK evaluated on the implementation's outputs; distinct op lines; "
         "input_distribution lists the member of every option family each case used and the stream class produced")
 THEOREM_BACKED = "see evidence.coverage.theorems"
-CORRESPONDENCE_ONLY = ("paths reported as stream:*:model:unsupported_* in input_distribution are checked by RoundTripOK on "
-                       "the implementation's output only")
-EXPLANATION = ("layer theorems (entropy coder, transforms, quantizers, varints) + executable specification; the composed "
-               "end-to-end theorem covers the sequential paths as far as DracoProps.C01 states")
+CORRESPONDENCE_ONLY = ('the Edgebreaker round trip as a whole (no stream-level theorem: connectivity round trip, point '
+                       'assignment and the step to RoundTripOK are evaluated per case); paths reported as '
+                       'stream:*:model:unsupported_* / model:none in input_distribution are checked by RoundTripOK on the '
+                       "implementation's output only")
+EXPLANATION = ('composed end-to-end theorems for the model pairs of the sequential methods (DracoProps.C01: exactly '
+               'expected g opts, any trailing bytes) and of the kd-tree method (DracoProps.C01Kd: expectedKd up to the '
+               'order of points), each with the corollary that the executable specification RoundTripOK accepts the '
+               'proved result; Edgebreaker (DracoProps.C01Eb): side coders, the inverse of every prediction scheme, the '
+               'whole attribute value block and the isomorphism chain are proved, the stream-level round trip is NOT — '
+               'it is evaluated per case by the op ebenc (rt-ok, iso-ok, hyp-ok, counts-ok). All three encoder models '
+               'are tied byte for byte, the decoder model token for token')
 TIMEOUT = 900
 CHECKS = {"rt", "valid", "consumed", "corr"}
 
